@@ -204,21 +204,21 @@ pub fn presence_bits(t: T) -> usize {
         T::HmacInput => 2,
         T::AuthOptions => 3,
         T::McExt => {
-            if rs::TPP {
+            if rs::tpp() {
                 4
             } else {
                 3
             }
         }
         T::GaExtIn => {
-            if rs::TPP {
+            if rs::tpp() {
                 3
             } else {
                 2
             }
         }
         T::GaExtOut => {
-            if rs::TPP {
+            if rs::tpp() {
                 2
             } else {
                 1
@@ -290,13 +290,13 @@ pub fn gen(t: T, src: &mut Src, ti: &mut TInfo) -> Value {
         }
         T::GaExtOut => {
             let p0 = src.bool();
-            let p1 = if rs::TPP { src.bool() } else { false };
+            let p1 = if rs::tpp() { src.bool() } else { false };
             let mut m = vec![];
             if ti.opt(p0) {
                 let n = *src.pick(&[32usize, 0, 1, 64, 79, 80]);
                 m.push(ks("hmac-secret", Value::Bytes(src.bytes(n))));
             }
-            if rs::TPP && ti.opt(p1) {
+            if rs::tpp() && ti.opt(p1) {
                 m.push(ks("thirdPartyPayment", Value::Bool(src.bool())));
             }
             Value::Map(m)
